@@ -10,11 +10,12 @@ ID="$1"; PATCH="$2"; shift 2
 PKG="$(echo "$ID" | tr 'A-Z' 'a-z')"
 S="/root/scratch/mut-$ID${MUT_TAG:+-$MUT_TAG}"
 mkdir -p "$S/verif"
-rsync -a --delete --exclude target --exclude .git /repo/ "$S/repo/"
+# no -t: a file reverted from a previous mutant must get a NEW mtime or cargo keeps the stale mutant build
+rsync -rlpgoD --checksum --delete --exclude target --exclude .git /repo/ "$S/repo/"
 if [ "$PATCH" != "-" ]; then
   (cd "$S/repo" && patch -p1 --no-backup-if-mismatch < "$PATCH") || { echo "MUTANT-RESULT $ID $PATCH rc=patch-failed"; exit 3; }
 fi
-rsync -a --delete --exclude target /verif/harness/ "$S/verif/harness/"
+rsync -rlpgoD --checksum --delete --exclude target /verif/harness/ "$S/verif/harness/"
 rsync -a --delete /verif/replays/regress/ "$S/verif/replays/regress/" 2>/dev/null
 mkdir -p "$S/verif/replays/regress"
 cp /verif/known-findings.txt "$S/verif/" 2>/dev/null
